@@ -58,6 +58,7 @@ func main() {
 	sigs := map[uint64]struct{}{}
 	var efdBefore int64
 	idleStarts, busyStarts, bursts := int64(0), int64(0), int64(0)
+	inLoopBursts := int64(0)
 	selfWakeIters := int64(0)
 	blocked := func() bool {
 		for _, ps := range vsys.Pollers() {
@@ -99,7 +100,41 @@ func main() {
 		recs := make([][]*taskRec, K)
 		var wg sync.WaitGroup
 		var rejected atomic.Int64
-		for k := 0; k < K; k++ {
+		inLoop := burst && r.Bool()
+		if inLoop {
+			// the whole burst is submitted by ONE task running on the loop itself: the queues cannot drain meanwhile,
+			// so the urgent queue really holds > 1024 tasks and the rest goes to the low-priority queue (> 256 there)
+			K = 1
+			recs = make([][]*taskRec, 1)
+			nHigh, nLow := r.Pick(1100, 1500), r.Pick(300, 600, 900)
+			per = nHigh + nLow
+			seeded := make(chan struct{})
+			_ = p.Trigger(queue.HighPriority, func(any) error {
+				for j := 0; j < per; j++ {
+					t := &taskRec{id: int64(it)<<20 | int64(j), prod: 0, high: j < nHigh}
+					prio := queue.LowPriority
+					if t.high {
+						prio = queue.HighPriority
+					}
+					recs[0] = append(recs[0], t)
+					if err := p.Trigger(prio, func(any) error {
+						t.runs.Add(1)
+						t.order = execCtr.Add(1)
+						t.gid = vlib.GoID()
+						executed.Add(1)
+						return nil
+					}, nil); err != nil {
+						rejected.Add(1)
+						t.runs.Store(-1000)
+					}
+				}
+				close(seeded)
+				return nil
+			}, nil)
+			<-seeded
+			inLoopBursts++
+		}
+		for k := 0; k < K && !inLoop; k++ {
 			wg.Add(1)
 			pr := r.Fork()
 			go func(k int) {
@@ -159,7 +194,11 @@ func main() {
 						log = append(log, vsys.PointTable[id-1])
 					}
 				}
-				res.Violate("C03 lost wake-up variant="+variant, fmt.Sprintf("iteration %d: %d of %d accepted tasks never ran; every producer had returned and %s; an unrelated Trigger afterwards made them run: %v", it, missing, n, desc, late),
+				sig := "C03 lost wake-up variant=" + variant
+				if !late {
+					sig = "C03 accepted task never executed (not even after another wake-up) variant=" + variant
+				}
+				res.Violate(sig, fmt.Sprintf("iteration %d: %d of %d accepted tasks never ran; every producer had returned and %s; an unrelated Trigger afterwards made them run: %v", it, missing, n, desc, late),
 					map[string]any{"iteration": it, "producers": K, "per_producer": per, "executed_late_on_unrelated_wake": late})
 				res.Eval(int64(it + 1))
 				finish(res, sigs, idleStarts, busyStarts, bursts, selfWakeIters, pts, submitted)
@@ -189,7 +228,7 @@ func main() {
 				if t.gid != loopGid.Load() {
 					res.Violate("C05 task ran off the polling goroutine", fmt.Sprintf("iteration %d: task ran on goroutine %d, the loop is goroutine %d", it, t.gid, loopGid.Load()), nil)
 				}
-				if t.high && !burst {
+				if t.high && (!burst || inLoop) {
 					if t.order < lastHigh {
 						res.Violate("C03 high-priority tasks of one producer reordered variant="+variant, fmt.Sprintf("iteration %d producer %d: a task issued later ran before one issued earlier", it, k), map[string]any{"iteration": it})
 					}
@@ -204,6 +243,7 @@ func main() {
 			res.Sample(map[string]any{"iteration": it, "producers": K, "tasks_per_producer": per, "loop_idle_at_start": true})
 		}
 	}
+	res.Obs("burst_iterations_submitted_from_the_loop", inLoopBursts)
 	res.Eval(int64(iters))
 	finish(res, sigs, idleStarts, busyStarts, bursts, selfWakeIters, pts, submitted)
 }
